@@ -81,6 +81,12 @@ def evaluate(case):
     x, y, z = (np.asarray(case[k], dtype=float) for k in ("x", "y", "z"))
     xmin, xdiv, xmax = case["xmin"], case["xdiv"], case["xmax"]
     fails = []
+    # calls that fail and are caught by the caller (a bin without data; y shorter than x) leave nothing behind for the next call
+    for bad in ((np.array([xmin, xmin + 5 * xdiv]), np.array([1.0, 2.0]), xmin, xdiv, xmin + 5 * xdiv), (x, y[:max(len(y) // 2, 1)], xmin, xdiv, xmax)):
+        try:
+            Pre_Proc.rebin(*bad)
+        except Exception:  # noqa: BLE001
+            pass
     try:
         g, v = Pre_Proc.rebin(x, y, xmin, xdiv, xmax)
     except ZeroDivisionError:
